@@ -18,6 +18,9 @@ import (
 	"syscall"
 
 	"github.com/labstack/echo/v4"
+	computepb "k3l.io/go-eigentrust/pkg/api/pb/compute"
+	tmpb "k3l.io/go-eigentrust/pkg/api/pb/trustmatrix"
+	tvpb "k3l.io/go-eigentrust/pkg/api/pb/trustvector"
 	"k3l.io/go-eigentrust/pkg/basic"
 )
 
@@ -389,6 +392,7 @@ func genC15(r *Rng, tier string) []*Case {
 		}
 		cs = append(cs, mk("Bytes", bc))
 	}
+	cs = append(cs, mk("Bytes", c15Bytes{What: 5}))
 	for w := 0; w <= 6; w++ {
 		cs = append(cs, mk("Huge", c15Huge{What: w}))
 	}
@@ -517,6 +521,34 @@ func runC15(c *Case) error {
 				returned = err == nil
 				panicked = strings.Contains(stderr, "panic:") || strings.Contains(stderr, "goroutine ")
 				c.setObs(map[string]interface{}{"stderr": tail(stderr, 500), "err": fmt.Sprint(err)})
+			case 5:
+				// every gRPC handler on the empty message and on messages whose sub-messages are absent
+				// (what a client that leaves fields out puts on the wire)
+				g := newGrpc()
+				ctx := context.Background()
+				id := "x"
+				_, _ = g.ms.Create(ctx, &tmpb.CreateRequest{Id: id})
+				_, _ = g.vs.Create(ctx, &tvpb.CreateRequest{Id: id})
+				_, _ = g.ms.Create(ctx, &tmpb.CreateRequest{})
+				_, _ = g.vs.Create(ctx, &tvpb.CreateRequest{})
+				_, _ = g.ms.Update(ctx, &tmpb.UpdateRequest{})
+				_, _ = g.ms.Update(ctx, &tmpb.UpdateRequest{Header: &tmpb.Header{}})
+				_, _ = g.ms.Update(ctx, &tmpb.UpdateRequest{Header: &tmpb.Header{Id: &id}})
+				_, _ = g.ms.Update(ctx, &tmpb.UpdateRequest{Header: &tmpb.Header{Id: &id}, Entries: []*tmpb.Entry{{}}})
+				_, _ = g.vs.Update(ctx, &tvpb.UpdateRequest{})
+				_, _ = g.vs.Update(ctx, &tvpb.UpdateRequest{Header: &tvpb.Header{}})
+				_, _ = g.vs.Update(ctx, &tvpb.UpdateRequest{Header: &tvpb.Header{Id: &id}, Entries: []*tvpb.Entry{{}}})
+				_ = g.ms.Get(&tmpb.GetRequest{}, &gmStream{})
+				_ = g.vs.Get(&tvpb.GetRequest{}, &gvStream{})
+				_, _ = g.ms.Flush(ctx, &tmpb.FlushRequest{})
+				_, _ = g.vs.Flush(ctx, &tvpb.FlushRequest{})
+				_, _ = g.ms.Delete(ctx, &tmpb.DeleteRequest{})
+				_, _ = g.vs.Delete(ctx, &tvpb.DeleteRequest{})
+				_, _ = g.cs.BasicCompute(ctx, &computepb.BasicComputeRequest{})
+				_, _ = g.cs.BasicCompute(ctx, &computepb.BasicComputeRequest{Params: &computepb.Params{}})
+				_, _ = g.cs.BasicCompute(ctx, &computepb.BasicComputeRequest{Params: &computepb.Params{LocalTrustId: id, GlobalTrustId: id}})
+				_, _ = g.cs.CreateJob(ctx, &computepb.CreateJobRequest{})
+				_, _ = g.cs.DeleteJob(ctx, &computepb.DeleteJobRequest{})
 			case 4:
 				pin := c20In{LT: &in.Text, PT: &in.Text, Hunch: &in.Hunch, Fuel: 3000}
 				if in.Names {
